@@ -1,6 +1,6 @@
 (* C18 -- discovery tables hold exactly what the sources say, and stay
    consistent.  Theorems only. *)
-From NX Require Import Bytes Discovery Mdns DiscoveryFacts.
+From NX Require Import Bytes Discovery Mdns DiscoveryFacts LeaseFacts SortedFacts.
 Open Scope Z_scope.
 
 Section C18_hosts.
@@ -70,3 +70,51 @@ Example append_uniq_example :
   fold_left append_uniq [[98];[97];[100];[99];[97]] [] = [[97];[98];[99];[100]]
   /\ fold_left (fun acc x => insert_sorted x acc) [[98];[97];[100];[99];[97]] [] = [[97];[98];[99];[100]].
 Proof. split; reflexivity. Qed.
+
+(* ---- DHCP lease files: none lost, none invented ---- *)
+(* dnsmasq.leases: the table is built from one entry per line (dm_entries); dhcpd.leases: from one
+   entry per lease block (dh_entries) *)
+Theorem C18_dnsmasq_entries : forall file,
+  read_dnsmasq file = fold_left lease_add_e (dm_entries file) (mkLease [] [] []).
+Proof. exact read_dnsmasq_entries. Qed.
+Print Assumptions C18_dnsmasq_entries.
+
+Theorem C18_dhcpd_entries : forall file,
+  read_dhcpd file =
+  fold_left lease_add_e (dh_entries (split_lines file) (mkDst (mkLease [] [] []) [] [] [])) (mkLease [] [] []).
+Proof. exact read_dhcpd_entries. Qed.
+Print Assumptions C18_dhcpd_entries.
+
+(* whatever the entries: a lookup by address / MAC / name (case-insensitive, with the .local alias)
+   returns a value iff some entry associates it with the key *)
+Theorem C18_lease_addr : forall es a n,
+  In n (lease_lookup_addr (fold_left lease_add_e es (mkLease [] [] [])) a) <->
+  exists e, In e es /\ le_wip e = true /\ beq_bytes (lower a) (le_ip e) = true /\ n = le_name e.
+Proof. exact lookup_addr_exact. Qed.
+Print Assumptions C18_lease_addr.
+
+Theorem C18_lease_mac : forall es m n,
+  In n (lease_lookup_mac (fold_left lease_add_e es (mkLease [] [] [])) m) <->
+  exists e, In e es /\ le_wmac e = true /\ beq_bytes (lower m) (le_mac e) = true /\ n = le_name e.
+Proof. exact lookup_mac_exact. Qed.
+Print Assumptions C18_lease_mac.
+
+Theorem C18_lease_host : forall es name ip,
+  In ip (lease_lookup_host (fold_left lease_add_e es (mkLease [] [] [])) name) <->
+  exists e, In e es /\ le_wip e = true /\
+    (beq_bytes (abs_name (lower_ascii (lower name))) (le_key e) = true \/
+     beq_bytes (abs_name (lower_ascii (lower name))) (le_key e ++ local_s) = true) /\ ip = le_ip e.
+Proof. exact lookup_host_exact. Qed.
+Print Assumptions C18_lease_host.
+
+(* ---- each association is listed once ---- *)
+(* appendUniq (binary search + insert) is sorted insertion without duplicates on a sorted set *)
+Theorem C18_append_uniq : forall s x, ssorted s = true -> append_uniq s x = insert_sorted x s.
+Proof. exact append_uniq_is_insert_sorted. Qed.
+Print Assumptions C18_append_uniq.
+
+Theorem C18_lease_once : forall es a,
+  let t := fold_left lease_add_e es (mkLease [] [] []) in
+  NoDup (lease_lookup_addr t a) /\ NoDup (lease_lookup_mac t a) /\ NoDup (lease_lookup_host t a).
+Proof. exact lease_lookups_nodup. Qed.
+Print Assumptions C18_lease_once.
